@@ -419,6 +419,33 @@ def run(chk):
             chk.ob("C15-D5.dispatch", f.key, "SampleDREAM<%s> @%d" % (form, c.get("l", 0)), ok, f.loc(c), "selected under %s" % sel, "regform on the true edge, logform on the false edge")
     chk.floor("C15-D5.dispatch", nd5, 4, "SampleDREAM instantiations in the C entry point")
 
+    # ------------------------------------------------------------------ D6 the sampling form is forwarded unchanged
+    chk.rule("C15-D6.forward", "inside an instantiation for sampling form F every call to another template instantiated over the sampling form uses the same F "
+                               "(an overload that forwards to the core sampler without the template argument silently selects the default, the regular form)")
+    db.load_all()
+    nd6 = 0
+    FORMS = ("regform", "logform")
+
+    def form_of(targs):
+        first = (targs or "").split(",")[0].rsplit("::", 1)[-1]
+        return first if first in FORMS else None
+    for fns in db._byname.values():
+        for f in fns:
+            F = form_of(f.d.get("targs"))
+            if F is None:
+                continue
+            for c in f.calls():
+                g = db.resolve(c)
+                G = form_of(g.d.get("targs")) if g is not None else form_of((c.get("targs") or (callee_node(c) or {}).get("targs")))
+                if G is None or not is_reachable(f, c):
+                    continue
+                nd6 += 1
+                chk.saw(f)
+                chk.ob("C15-D6.forward", f.key + "<" + F + ">", "call of %s<%s> @%d" % ((callee(c) or "").rsplit("::", 1)[-1], G, c.get("l", 0)), G == F, f.loc(c),
+                       "" if G == F else "the caller was instantiated for %s but continues with %s: acceptance is decided with the rule of the other form" % (F, G),
+                       "the caller's own form")
+    chk.floor("C15-D6.forward", nd6, 6, "forwarding calls between instantiations over the sampling form")
+
     return ("Static rule discharge over both instantiations of SampleDREAM<form> and the TasmanianDREAM accessors. "
             "D1: forward dataflow of upper-bound facts (v < num_chains) over the clang CFG with edge refinement; sinks are the "
             "index parameters of TasmanianDREAM methods, derived from the accessor bodies, plus subscripts of local vectors sized num_chains. "
